@@ -310,21 +310,29 @@ func xmlAddKeyElements(s Entry, parent *etree.Element) {
 	parentSchema, levelsUp := s.GetFirstAncestorWithSchema()
 	// from the parent we get the keys as slice
 	schemaKeys := parentSchema.GetSchemaKeys()
+	// the key levels of the tree follow the alphabetical order of the key names (see utils.ToStrings)
+	levelKeys := slices.Clone(schemaKeys)
+	slices.Sort(levelKeys)
+	keyValues := map[string]string{}
 	var treeElem Entry = s
 	// the keys do match the levels up in the tree in reverse order
 	// hence we init i with levelUp and count down
 	for i := levelsUp - 1; i >= 0; i-- {
-		// skip if the element already exists
-		existingElem := parent.SelectElement(schemaKeys[i])
-		if existingElem == nil {
-			// and finally we create the patheleme key attributes.
-			// The keys have to be the first elements of the list entry, in the order of the key statement.
-			// Counting down and inserting at the front yields exactly that order.
-			keyElem := etree.NewElement(schemaKeys[i])
-			keyElem.SetText(treeElem.PathName())
-			parent.InsertChildAt(0, keyElem)
-		}
+		keyValues[levelKeys[i]] = treeElem.PathName()
 		treeElem = treeElem.GetParent()
+	}
+	// The keys have to be the first elements of the list entry, in the order of the key statement.
+	// Counting down and inserting at the front yields exactly that order.
+	for i := len(schemaKeys) - 1; i >= 0; i-- {
+		value, exists := keyValues[schemaKeys[i]]
+		// skip if the element already exists
+		if !exists || parent.SelectElement(schemaKeys[i]) != nil {
+			continue
+		}
+		// and finally we create the patheleme key attributes.
+		keyElem := etree.NewElement(schemaKeys[i])
+		keyElem.SetText(value)
+		parent.InsertChildAt(0, keyElem)
 	}
 }
 
